@@ -215,7 +215,8 @@ CHECKS['C01'] = dict(
          "Coq against the reading and against the ground semantics; when the candidate space is small the comparison is exhaustive over ALL "
          "interpretations (reading = ground semantics = clingo). Proved end to end (ground constraints of the compiled rule hold in I iff the "
          "reading of the sentence holds, any specification, universe and interpretation): constraints over one quantified clause in both "
-         "polarities (C01_single_clause_constraint_partial) and named-instance constraints 'there is [not] a <relation> with ...' "
+         "polarities (C01_single_clause_constraint_partial), the same restricted by 'where X is one of v1..vn' "
+         "(C01_single_clause_one_of_partial, with the printer/parser round trip of integers proved in Base/DigitsRoundtrip.v) and named-instance constraints 'there is [not] a <relation> with ...' "
          "(C01_named_instance_constraint_partial); C01_one_of_multiplies: a 'where L is one of' clause multiplies the rules. The theorem "
          "'stable (ground (compile s)) I <-> reading s I' for ALL F0 specifications is not proved (see DESIGN 11.1): partial.",
     note="Trusted: Coq kernel; clingo as external semantics (it also validates Asp/Ground.v); Lark's parse of rendered sentences; the reading "
